@@ -1,7 +1,7 @@
 #!/bin/bash
 # tools/intake.sh Cxx <round>: confirm both changes of an agent (verify_seed), drop the agent's worktree
 p=$1; r=$2
-for x in A B; do
+for x in A B C; do
   if [ -f /tmp/mut$r-$p/out/$x/patch.diff ]; then python3 /verif/tools/verify_seed.py $p $x $r 2>&1 | tail -3; else echo "$p $x: no patch"; fi
 done
 git -C /repo worktree remove --force /tmp/mut$r-$p 2>/dev/null; rm -rf /tmp/mut$r-$p; git -C /repo worktree prune
